@@ -25,7 +25,7 @@ def _bump(rec, rng, nblocks, eid):
         groups[-1] = groups[-1] + '.' + extra
     else:
         idx = rng.randint(idx + 1, max(idx + 1, nblocks - 1))
-        groups.append('zz=' + extra)
+        groups.append(f'z{eid}=' + extra)
     return '|'.join([rid, ph, pa, str(idx), ';'.join(groups)])
 
 
@@ -69,8 +69,12 @@ def gen_history(rng, phens, cache, n_ops, data_hi=4, p_remote=0.4):
                     if rng.random() < 0.3:       # merged message: also named as updated
                         lists['U'].append(base)
                 elif kind == 'stale' and (finished or seen):
-                    r = rng.choice(finished or seen)
-                    lists[rng.choice('CHUU')].append(r)
+                    # a finished run named again (C/H), or an old position of some run named as updated
+                    # (well-formed: a record in the updated list is always inside the block list)
+                    if seen and rng.random() < 0.6:
+                        lists['U'].append(rng.choice(seen))
+                    elif finished:
+                        lists[rng.choice('CH')].append(rng.choice(finished))
                 elif kind == 'unknown':
                     lists[rng.choice('CHU')].append(f'u{fid}|nophen|nopat|1|g=q{fid}:1:s:1')
                     fid += 1
